@@ -99,6 +99,27 @@ RejTag(D, k, b) ==
          (IF k \in {"SR", "RR", "SDES", "BYE"} THEN "C04:inflated_count_accepted" ELSE "C04:short_packet_accepted")
   ELSE "C07:foreign_accepted"
 
+\* C13 on every buffer the library accepts as TransportLayerCC, valid or not:
+\* an independent expansion of the raw bytes inside the declared length.
+\* Chunks or deltas that do not fit the declared length must be refused; if
+\* they fit (and no vector symbol beyond the status count is set: those are
+\* padding, observed but not judged) the decoded chunks and deltas are those.
+Twcc13Tags(b, res) ==
+  IF res.panic \/ res.slow \/ ~res.ok THEN {}
+  ELSE IF Len(b) >= 4 /\ HLen(b) >= 16383 THEN {}     \* declared length beyond 65535 octets: outside C04's scope, not judged
+  ELSE IF Len(b) < 20 THEN {"C13:short_accepted"}
+  ELSE LET total == 4 * (HLen(b) + 1) IN
+       IF total > Len(b) \/ total < 20 THEN {"C13:declared_length_exceeds_buffer"}
+       ELSE LET w  == Take(b, total)
+                cp == ChunkPassL(w, 20, U16At(w, 14), << >>, << >>, TRUE) IN
+            IF ~cp.fits THEN {"C13:chunks_outside_declared_length"}
+            ELSE IF ~cp.clean THEN {}
+            ELSE LET dp == DeltaPass(w, cp.pos, cp.dts, << >>) IN
+                 IF ~dp.ok THEN {"C13:deltas_outside_declared_length"}
+                 ELSE (IF res.out.chunks # cp.chunks THEN {"C13:chunks"} ELSE {})
+                      \cup (IF res.out.deltas # dp.deltas THEN {"C13:deltas"} ELSE {})
+                      \cup (IF res.out.count # U16At(w, 14) \/ res.out.hdr.len # HLen(b) THEN {"C13:header"} ELSE {})
+
 \* CompoundPacket.Unmarshal (C11): the datagram decodes and the result validates
 DecCP(D, b) ==
   LET r == DecDatagram(D, b) IN
